@@ -126,6 +126,19 @@ func drawCfg(r *simkit.Run) cfg {
 	// channels that have lived through earlier incarnations start at a higher epoch
 	// (room for "older epoch, higher term" authorities)
 	c.Epoch0 = 1 + tp.Intn(3)
+	if r.Tier == "thorough" {
+		// deeper worlds: longer histories, a seven-voter topology, more runs on the real
+		// MessageDB (quick-tier tapes and witnesses are unaffected: these draws only exist here)
+		c.Ops += tp.Intn(60)
+		if c.N == 5 && tp.Intn(4) == 3 {
+			c.N = 7
+			c.Q = 4 + tp.Weighted([]int{4, 1, 1})
+		}
+		if c.StoreMode == 0 && tp.Intn(3) == 2 {
+			c.StoreMode = 1
+			c.MemTable = []int{4 << 20, 64 << 10, 256 << 10}[tp.Intn(3)]
+		}
+	}
 	return c
 }
 
